@@ -1,20 +1,43 @@
 package c20
 
 import (
+	"reflect"
 	"testing"
 	"time"
 
 	"verif/explore"
 )
 
-func TestOne(t *testing.T) {
-	for _, b := range []int{0, 1, 2} {
-		rp := explore.NewReport(explore.Options{Property: "C20", Harness: "c20", Bound: b})
-		st := time.Now()
-		rp.Explore(item(1, []int{0, 0}, []string{"Wy", "R"}))
-		t.Logf("bound %d execs=%d steps=%d points=%d viol=%d eng=%v out=%v in %v", b, rp.Execs, rp.Transitions, rp.Points, len(rp.Violations), rp.EngineErrors, rp.Outcomes, time.Since(st))
-		for _, v := range rp.Violations {
-			t.Logf("%+v", v.Failures)
+// The happens-before cache must not change the set of observed outcomes.
+func TestCacheEquivalence(t *testing.T) {
+	items := [][2][]string{{{"Wy", "R"}, nil}, {{"yW", "S"}, nil}, {{"rW", "H"}, nil}, {{"D", "n"}, nil}}
+	for _, n := range []int{1, 2} {
+		for m0 := 0; m0 < 4; m0++ {
+			for _, its := range items {
+				var outs [2]map[string]bool
+				var execs [2]int64
+				for c := 0; c < 2; c++ {
+					rp := explore.NewReport(explore.Options{Property: "C20", Harness: "c20", Bound: 2, NoCache: c == 0})
+					st := time.Now()
+					rp.Explore(item(n, []int{m0, 0}, its[0]))
+					outs[c] = map[string]bool{}
+					for k := range rp.Outcomes {
+						outs[c][k] = true
+					}
+					for _, v := range rp.Violations {
+						outs[c]["V:"+v.Signature] = true
+					}
+					execs[c] = rp.Execs
+					if len(rp.EngineErrors) > 0 {
+						t.Fatalf("engine errors: %v", rp.EngineErrors)
+					}
+					_ = st
+				}
+				if !reflect.DeepEqual(outs[0], outs[1]) {
+					t.Errorf("n=%d m0=%d %v: outcomes differ: nocache=%v cache=%v", n, m0, its[0], outs[0], outs[1])
+				}
+				t.Logf("n=%d m0=%d %v: execs nocache=%d cache=%d outcomes=%v", n, m0, its[0], execs[0], execs[1], outs[1])
+			}
 		}
 	}
 }
